@@ -403,6 +403,26 @@ def check_iso(desc, ctx):
                             f"interpolation error bound {bound[q]:.3g}", tag="enthalpy_value")
         tight = float(bound.max()) <= 0.25 * dH
         ctx.label("bound_tight" if tight else "bound_loose")
+        # the same isotherm objects, converted IN PLACE to another pressure representation after the first analysis
+        # (which left interpolators behind), analysed again at the same loadings: same enthalpies
+        if int(dH * 1e6) % 2 == 0:
+            try:
+                for iso in isos:
+                    if iso.pressure_mode == "absolute":
+                        iso.convert_pressure(mode_to="relative")
+                    else:
+                        iso.convert_pressure(mode_to="absolute", unit_to="kPa")
+                res2 = isosteric_enthalpy(isos, loading_points=[float(v) for v in lpts])
+            except CalculationError:
+                ctx.label("second_analysis_refused")
+            else:
+                lib2 = np.asarray(res2["isosteric_enthalpy"], dtype=float)
+                if lib2.shape != lib.shape or not np.all(np.abs(lib2 - lib) <= tol + 1e-6 * abs(dH)):
+                    q = int(np.argmax(np.abs(lib2 - lib))) if lib2.shape == lib.shape else 0
+                    raise Violation(f"{what}: after converting the same isotherms in place to {isos[0].pressure_mode} pressure "
+                                    f"the analysis at loading {lpts[q]!r} gives {lib2[q] if lib2.shape == lib.shape else lib2!r}, "
+                                    f"before the conversion {lib[q]!r}", tag="enthalpy_after_inplace_conversion")
+                ctx.label("second_analysis_after_inplace_conversion")
     else:
         bad = np.flatnonzero(~(np.abs(lib - dH) <= tol))
         if bad.size:
